@@ -498,7 +498,8 @@ class _Exporter:
         onnx_iter_var = body.input[0].name
         if has_input(node, 0):
             use_iter_var = True
-            n_iter = self._translate_onnx_var(node.input[0])
+            # r-value: the trip count may be a constant that was inlined
+            n_iter = self._translate_onnx_var_ref(node.input[0])
         else:
             use_iter_var = _is_used_in_graph_body(onnx_iter_var, body)
             n_iter = None
